@@ -158,10 +158,12 @@ func (v *Vue) evaluate(ctx VueContext, nodes []*html.Node, depth int) ([]*html.N
 			if err := v.evalVText(ctx, newNode); err != nil {
 				return nil, err
 			}
-			if err := v.evalVShow(ctx, newNode); err != nil {
+			if _, err := v.evalAttributes(ctx, newNode); err != nil {
 				return nil, err
 			}
-			if _, err := v.evalAttributes(ctx, newNode); err != nil {
+			// (after the attributes: display:none is set on the style as it is written - interpolated,
+			// merged with a bound style - and a bound display does not undo it)
+			if err := v.evalVShow(ctx, newNode); err != nil {
 				return nil, err
 			}
 
